@@ -1,0 +1,14 @@
+//go:build !verif
+
+package layout
+
+import (
+	bo "github.com/benoitkugler/webrender/html/boxes"
+	"github.com/benoitkugler/webrender/html/tree"
+)
+
+// No-op twins of the verification hooks (see verif_hooks.go, build tag verif).
+
+func verifLoop(*layoutContext, *tree.HTML, int) {}
+
+func verifPageMade(*layoutContext, *tree.HTML, int, bool, *bo.PageBox, tree.ResumeStack) {}
